@@ -26,6 +26,7 @@ type step struct {
 type history struct {
 	Steps []step `json:"steps"`
 	Index string `json:"index"`
+	Desc  bool   `json:"timestamps_descending"` // later events carry EARLIER timestamps (late-arriving data)
 }
 
 type recovered struct {
@@ -37,6 +38,7 @@ type recovered struct {
 	CountErr  string   `json:"stats_err"`
 	After     []int    `json:"ids_after_more_ingest"`
 	AfterErr  string   `json:"after_err"`
+	Bounded   map[int][]int `json:"ids_by_time_bounded_query_per_flush_step"`
 	Again     []int    `json:"ids_after_second_restart"`
 	AgainErr  string   `json:"again_err"`
 }
@@ -64,9 +66,18 @@ func flushLogs() {
 
 const baseTs = uint64(1700000000000)
 
+var descending bool
+
+func tsOf(id int) uint64 {
+	if descending {
+		return baseTs + uint64(100000-id)*1000
+	}
+	return baseTs + uint64(id)*1000
+}
+
 func eventJSON(id int) string {
 	// content is a function of the id so that recovered rows can be validated
-	return fmt.Sprintf(`{"id":%d,"w":"w%d","n":%d,"timestamp":%d}`, id, id%3, id*7, baseTs+uint64(id)*1000)
+	return fmt.Sprintf(`{"id":%d,"w":"w%d","n":%d,"timestamp":%d}`, id, id%3, id*7, tsOf(id))
 }
 
 func ingest(index string, from, n int) error {
@@ -81,9 +92,13 @@ func ingest(index string, from, n int) error {
 var qid uint64 = 5000
 
 func runQuery(index, text string) (*pipesearchResp, error) {
+	return runQueryRange(index, text, uint64(1), ^uint64(0))
+}
+
+func runQueryRange(index, text string, start, end uint64) (*pipesearchResp, error) {
 	qid++
 	req := map[string]interface{}{
-		"searchText": text, "indexName": index, "startEpoch": uint64(1), "endEpoch": ^uint64(0),
+		"searchText": text, "indexName": index, "startEpoch": start, "endEpoch": end,
 		"size": uint64(10000), "queryLanguage": "Splunk QL",
 	}
 	resp, _, _, err := pipesearch.ParseAndExecutePipeRequest(req, qid, 0, time.Now(), "", nil)
@@ -139,7 +154,7 @@ func matchAll(index string) (ids []int, bad []string, err error) {
 		n, _ := num(row["n"])
 		ts, _ := num(row["timestamp"])
 		w, _ := row["w"].(string)
-		if n != id*7 || uint64(ts) != baseTs+uint64(id)*1000 || w != fmt.Sprintf("w%d", id%3) {
+		if n != id*7 || uint64(ts) != tsOf(int(id)) || w != fmt.Sprintf("w%d", id%3) {
 			bad = append(bad, fmt.Sprintf("id %d: n=%v w=%v timestamp=%v", id, row["n"], row["w"], row["timestamp"]))
 		}
 		ids = append(ids, int(id))
@@ -163,6 +178,7 @@ func workerMain(args []string) {
 	var h history
 	b, _ := os.ReadFile(hf)
 	_ = json.Unmarshal(b, &h)
+	descending = h.Desc
 	switch mode {
 	case "ingest":
 		if err := initSiglens(dir + "/data"); err != nil {
@@ -263,6 +279,29 @@ func workerMain(args []string) {
 					}
 				}
 			}
+		}
+		// time-bounded queries: the range of each flush step's own events
+		out.Bounded = map[int][]int{}
+		next := 1
+		for i, st := range h.Steps {
+			if st.Kind != "flush" {
+				continue
+			}
+			lo, hi := tsOf(next), tsOf(next+st.N-1)
+			if lo > hi {
+				lo, hi = hi, lo
+			}
+			if r, err := runQueryRange(h.Index, "*", lo, hi); err == nil {
+				var ids []int
+				for _, row := range r.Rows {
+					if id, ok := num(row["id"]); ok {
+						ids = append(ids, int(id))
+					}
+				}
+				sort.Ints(ids)
+				out.Bounded[i] = ids
+			}
+			next += st.N
 		}
 		write()
 		// later ingestion must not overwrite recovered data
